@@ -55,6 +55,26 @@ func (s *Counters) VerifDump() []Counter {
 	return all
 }
 
+// VerifOrdered returns all counters bucket by bucket (buckets sorted by key) in the order in which
+// each bucket stores them, so that two containers with the same content but a different internal
+// arrangement can be told apart.
+func (s *Counters) VerifOrdered() []Counter {
+	s.Lock()
+	defer s.Unlock()
+	keys := make([]uint32, 0, len(s.m))
+	for k := range s.m {
+		keys = append(keys, k)
+	}
+	sort.Slice(keys, func(i, j int) bool { return keys[i] < keys[j] })
+	var out []Counter
+	for _, k := range keys {
+		for m := s.m[k]; m != nil; m = m.next {
+			out = append(out, Counter{Ssid: m.Ssid, Channel: m.Channel, Counter: m.Counter})
+		}
+	}
+	return out
+}
+
 // VerifWildcards exposes the reserved ssid words.
 func VerifWildcards() (single, multi, shareWord, presenceWord uint32) {
 	return wildcard, multiWildcard, share, presence
